@@ -214,6 +214,13 @@ def Len.eq (eps : K) (s o : Len K) : Bool :=
       | some a, some b => decide (kabs (a - b) ≤ eps)
       | _, _ => false
 
+/-- `Length.__eq__(number)`: a pixel-family length compares by value; any other unit equals a number
+    only when both are zero -/
+def Len.eqNum (eps : K) (s : Len K) (x : K) : Bool :=
+  match s.inPixels with
+  | some a => decide (kabs (a - x) ≤ eps)
+  | none => x == 0 && s.amount == 0
+
 /-- `a < b`: `(a - b).amount < 0` -/
 def Len.lt (a b : Len K) : Py Bool := do
   let d ← Len.sub a b
